@@ -196,6 +196,63 @@ func C12(p *load.Prog, r *oblig.Run) {
 			}
 		}
 		if n == 0 {
+			// the parents score is computed by a helper (parentsSimilarity): its constant return is the default
+			for _, b := range f.Blocks {
+				for _, ins := range b.Instrs {
+					st, ok := ins.(*ssa.Store)
+					if !ok {
+						continue
+					}
+					fa, ok := st.Addr.(*ssa.FieldAddr)
+					if !ok || su.FieldName(fa) != "ParentsSimilarity" {
+						continue
+					}
+					hc, ok := st.Val.(*ssa.Call)
+					if !ok {
+						continue
+					}
+					h := hc.Call.StaticCallee()
+					if h == nil || !p.IsRepoFunc(h) || len(h.Blocks) == 0 || len(h.Params) < 2 {
+						continue
+					}
+					for _, hb := range h.Blocks {
+						ret, isRet := hb.Instrs[len(hb.Instrs)-1].(*ssa.Return)
+						if !isRet || len(ret.Results) != 1 {
+							continue
+						}
+						v, isC := floatConst(ret.Results[0])
+						if !isC {
+							continue
+						}
+						n++
+						r.Check("R12.a", "no-parents default in SurroundingSimilarity", p.Pos(ret.Pos()), "parents similarity when neither side has parents", v == 0.5,
+							"0.5", fmt.Sprintf("the parents similarity defaults to %v instead of the neutral 0.5 when no parents are known", v))
+						ob := r.Add("R12.b", "test selecting the no-parents default in SurroundingSimilarity", p.Pos(ret.Pos()), "operands the neutral-score test depends on")
+						deps := map[*ssa.Parameter]bool{}
+						for _, pr := range hb.Preds {
+							if iff, isIf := pr.Instrs[len(pr.Instrs)-1].(*ssa.If); isIf {
+								paramDeps(iff.Cond, deps, map[ssa.Value]bool{})
+							}
+						}
+						var missing []string
+						for i, prm := range h.Params {
+							if i > 1 {
+								break
+							}
+							if !deps[prm] {
+								missing = append(missing, prm.Name())
+							}
+						}
+						if len(hb.Preds) == 0 || len(missing) > 0 {
+							ob.Fail("the neutral parents score is chosen by a test that does not look at " + strings.Join(missing, ", ") + ": a.SurroundingSimilarity(b) and b.SurroundingSimilarity(a) differ when only one of the two has parents (one direction scores 0.5, the other 0)")
+						} else {
+							ob.OK("depends on both individuals")
+						}
+					}
+				}
+			}
+		}
+		if n == 0 {
 			r.Add("R12.a", "no-parents default in SurroundingSimilarity", p.Pos(f.Pos()), "default").Unknown("no constant store to ParentsSimilarity found")
 		}
 	}
@@ -1090,54 +1147,64 @@ func c12Weights(p *load.Prog, r *oblig.Run) {
 	}
 	// R12.g: the loops of the similarity functions that take a best value over pairs run to the end
 	r.Rule("R12.g", "the loops of the similarity functions over pairs of names, families and relatives are left only when their range is exhausted (the best value over all pairs does not depend on the order)", 3)
+	seenG := map[*ssa.Function]bool{}
 	for _, name := range []struct{ typ, fn string }{{"IndividualNode", "Similarity"}, {"IndividualNode", "SurroundingSimilarity"}, {"FamilyNode", "Similarity"}, {"IndividualNodes", "Similarity"}} {
-		fn := p.Method(load.PkgRoot, name.typ, name.fn)
-		if fn == nil {
+		top := p.Method(load.PkgRoot, name.typ, name.fn)
+		if top == nil {
 			continue
 		}
-		hsAll := loopHeaders(fn)
-		for hi, h := range hsAll {
-			// matrix loops only: a loop that contains, or is contained in, another loop (the greedy pass over the sorted
-			// list of pairs legitimately stops at the first pair below the threshold)
-			nested := false
-			for _, h2 := range hsAll {
-				if h2 != h && (loopBlock(h2, h) || loopBlock(h, h2)) {
-					nested = true
-				}
+		fnsG := []*ssa.Function{top}
+		for _, c := range su.Calls(top) {
+			if h := c.Common().StaticCallee(); h != nil && h != top && pkgPathOf(h) == load.PkgRoot && len(h.Blocks) > 0 && strings.Contains(strings.ToLower(h.Name()), "similarity") && !seenG[h] && h.Name() != "Similarity" && h.Name() != "SurroundingSimilarity" {
+				seenG[h] = true
+				fnsG = append(fnsG, h)
 			}
-			if !nested {
-				continue
-			}
-			key := fmt.Sprintf("loop #%d in %s", hi+1, load.FuncName(fn))
-			pos := p.Pos(fn.Pos())
-			for _, ins := range h.Instrs {
-				if ins.Pos().IsValid() {
-					pos = p.Pos(ins.Pos())
-					break
-				}
-			}
-			ob := r.Add("R12.g", key, pos, "exits of the loop")
-			bad := ""
-			for _, b := range fn.Blocks {
-				if b == h || !loopBlock(b, h) {
-					continue
-				}
-				for _, sx := range b.Succs {
-					if sx != h && !loopBlock(sx, h) {
-						line := 0
-						for _, ins := range b.Instrs {
-							if ins.Pos().IsValid() {
-								line = p.Fset.Position(ins.Pos()).Line
-							}
-						}
-						bad = fmt.Sprintf("the loop is left from inside its body (near line %d) before its range is exhausted", line)
+		}
+		for _, fn := range fnsG {
+			hsAll := loopHeaders(fn)
+			for hi, h := range hsAll {
+				// matrix loops only: a loop that contains, or is contained in, another loop (the greedy pass over the sorted
+				// list of pairs legitimately stops at the first pair below the threshold)
+				nested := false
+				for _, h2 := range hsAll {
+					if h2 != h && (loopBlock(h2, h) || loopBlock(h, h2)) {
+						nested = true
 					}
 				}
-			}
-			if bad != "" {
-				ob.Fail(bad + ": the value kept is the first acceptable pair in the receiver's order, not the best pair, so a.Similarity(b) and b.Similarity(a) can differ")
-			} else {
-				ob.OK("left only through its header")
+				if !nested {
+					continue
+				}
+				key := fmt.Sprintf("loop #%d in %s", hi+1, load.FuncName(fn))
+				pos := p.Pos(fn.Pos())
+				for _, ins := range h.Instrs {
+					if ins.Pos().IsValid() {
+						pos = p.Pos(ins.Pos())
+						break
+					}
+				}
+				ob := r.Add("R12.g", key, pos, "exits of the loop")
+				bad := ""
+				for _, b := range fn.Blocks {
+					if b == h || !loopBlock(b, h) {
+						continue
+					}
+					for _, sx := range b.Succs {
+						if sx != h && !loopBlock(sx, h) {
+							line := 0
+							for _, ins := range b.Instrs {
+								if ins.Pos().IsValid() {
+									line = p.Fset.Position(ins.Pos()).Line
+								}
+							}
+							bad = fmt.Sprintf("the loop is left from inside its body (near line %d) before its range is exhausted", line)
+						}
+					}
+				}
+				if bad != "" {
+					ob.Fail(bad + ": the value kept is the first acceptable pair in the receiver's order, not the best pair, so a.Similarity(b) and b.Similarity(a) can differ")
+				} else {
+					ob.OK("left only through its header")
+				}
 			}
 		}
 	}
@@ -1150,7 +1217,18 @@ func c12Weights(p *load.Prog, r *oblig.Run) {
 	o.Pos = p.Pos(sim.Pos())
 	// loops whose header has an index phi: it must start at -1/0 (range form) or 0, never at another loop's index
 	bad, n := "", 0
-	for _, h := range loopHeaders(sim) {
+	// the matrix may live in a helper IndividualNode.Similarity calls (bestNameSimilarity)
+	scanFns := []*ssa.Function{sim}
+	for _, c := range su.Calls(sim) {
+		if h := c.Common().StaticCallee(); h != nil && h != sim && pkgPathOf(h) == load.PkgRoot && len(h.Blocks) > 0 && len(loopHeaders(h)) >= 2 && h.Signature.Recv() != nil && h.Signature.Recv().Type().String() == sim.Signature.Recv().Type().String() {
+			scanFns = append(scanFns, h)
+		}
+	}
+	var allHeaders []*ssa.BasicBlock
+	for _, sf := range scanFns {
+		allHeaders = append(allHeaders, loopHeaders(sf)...)
+	}
+	for _, h := range allHeaders {
 		for _, ins := range h.Instrs {
 			ph, ok := ins.(*ssa.Phi)
 			if !ok {
